@@ -129,7 +129,8 @@ def gen_table(
                 v = -v
             feats.append(_round6(v))
         charge = 2 + (i % 3)
-        modpep = f"{pep}[{i % 2}]"
+        # unmodified peptides carry the same string at the peptide and the modified-peptide level
+        modpep = pep if i % 3 == 0 else f"{pep}[{i % 2}]"
         vals = {
             "SpecId": f"{id_prefix}_{file_id}_{i}",
             "Label": lab,
